@@ -207,6 +207,15 @@ def evaluate__map_merge(self: XPathFunction, context: ta.ContextType = None) -> 
                 else:
                     raise self.error('FOJS0005')
 
+    def combine_values(v1: Any, v2: Any) -> list[Any]:
+        # sequence concatenation into a new list: the values of the operands are not changed
+        result = list(v1) if isinstance(v1, list) else [v1]
+        if isinstance(v2, list):
+            result.extend(v2)
+        else:
+            result.append(v2)
+        return result
+
     items: dict[Any, Any] = {}
     for map_ in self[0].select(context):
         if not isinstance(map_, XPathMap):
@@ -223,10 +232,7 @@ def evaluate__map_merge(self: XPathFunction, context: ta.ContextType = None) -> 
                     items.pop(k1)  # remove before to replace the key
                     items[k1] = v
                 elif duplicates == 'combine':
-                    try:
-                        items[k1].append(v)
-                    except AttributeError:
-                        items[k1] = [items[k1], v]
+                    items[k1] = combine_values(items[k1], v)
                 continue
 
             # TODO: too slow. An alternative idea is to couple with the type
@@ -239,10 +245,7 @@ def evaluate__map_merge(self: XPathFunction, context: ta.ContextType = None) -> 
                         items.pop(k2)  # remove before to replace the key
                         items[k1] = v
                     elif duplicates == 'combine':
-                        try:
-                            items[k2].append(v)
-                        except AttributeError:
-                            items[k2] = [items[k2], v]
+                        items[k2] = combine_values(items[k2], v)
                     break
             else:
                 items[k1] = v
